@@ -8,7 +8,7 @@ import sim_common
 
 def run(tier, seed):
     chk = vlib.Check("C04", tier, seed)
-    n = 110 if tier == "quick" else 1500
+    n = 110 if tier == "quick" else 1000
     cases = sim_common.make_cases("C04", tier, seed, n, variants=(0, 0, 0, 1), fp_levels=(3, 10, 2, 10, 3, 1, 10), sizes=(0, 0, 1), burst=5,
                                   gvts=[0, 0, 20, 0, 50, 200], threads=[2, 3, 4, 8, 2, 12, 4, 6, 16])
     sim_common.run_sim_cases(chk, cases, timeout=300)
